@@ -63,6 +63,11 @@ func main() {
 		n, _ := strconv.Atoi(os.Args[2])
 		seed, _ := strconv.Atoi(os.Args[3])
 		record(n, int64(seed))
+	case "storm":
+		rounds, _ := strconv.Atoi(os.Args[2])
+		k, _ := strconv.Atoi(os.Args[3])
+		procs, _ := strconv.Atoi(os.Args[4])
+		storm(rounds, k, procs)
 	}
 	rt.Flush()
 }
@@ -276,6 +281,56 @@ func replay(in input) map[string]any {
 		return fail(in, len(in.Beh), "waitgroup/goroutine-leak", "library goroutines remain: "+left[0].Stack, nil)
 	}
 	return map[string]any{"n": in.N, "ok": true, "steps": len(in.Beh)}
+}
+
+// ------------------------------------------------------------------ storm
+
+// storm checks the state invariant of WaitGroupStep "counter = 0 => no Wait is blocked" (with live contexts)
+// at ONE quiescent point after many unsynchronised rounds: in every round a fresh WaitGroup holds one unit,
+// k goroutines call Wait and one calls Done, all released from a barrier, and the driver does not wait for
+// anything in between - so the Done lands at every possible point of the waiters' entry sequence (check of the
+// counter, locking, helper start, parking).  A Wait that missed the zero stays parked for ever, hence the
+// verdict at the final quiescent point is exact and independent of time.
+func storm(rounds, k, procs int) {
+	runtime.GOMAXPROCS(procs)
+	ctx, cancel := context.WithCancel(context.Background())
+	type round struct {
+		wg       *fun.WaitGroup
+		returned atomic.Int32
+	}
+	rs := make([]*round, rounds)
+	for r := range rs {
+		rd := &round{wg: &fun.WaitGroup{}}
+		rs[r] = rd
+		rd.wg.Add(1)
+		start := make(chan struct{})
+		for i := 0; i < k; i++ {
+			go func() { <-start; rd.wg.Wait(ctx); rd.returned.Add(1) }()
+		}
+		go func() { <-start; rd.wg.Done() }()
+		close(start)
+		if r%64 == 63 {
+			runtime.Gosched()
+		}
+	}
+	out := map[string]any{"storm": rounds, "k": k, "procs": procs}
+	if _, err := rt.QuiesceBudget(20000); err != nil {
+		out["inconclusive"] = "no quiescence after the storm"
+	} else {
+		stuck, first := 0, -1
+		for r, rd := range rs {
+			if n := int(rd.returned.Load()); n != k && rd.wg.Num() == 0 {
+				stuck += k - n
+				if first < 0 {
+					first = r
+				}
+			}
+		}
+		out["stuck"], out["first"] = stuck, first
+	}
+	cancel()
+	rt.Quiesce()
+	rt.Emit(out)
 }
 
 // ------------------------------------------------------------------ record
